@@ -1026,7 +1026,7 @@ class C05(Check):
                 for allowed, expect_same in ((["192.168.77.129"], True), (["127.0.0.1", "::ffff:127.0.0.1"], False)):
                     h = F.TftpFileRequestHandler(cfg(allowed, nores, key))
                     h.set_data_source(MapDS())
-                    srv = TS.TftpServer([h], "::", 0, default_timeout=1.0, max_retries=0)   # dual stack: the client is ::ffff:127.0.0.1
+                    srv = TS.TftpServer([h], "::", common.free_udp_port(), default_timeout=1.0, max_retries=0)   # dual stack: the client is ::ffff:127.0.0.1
                     srv.start()
                     try:
                         port = srv._socket.getsockname()[1]
